@@ -76,7 +76,7 @@ CHECKS["C03"] = {
 CHECKS["C12"] = {
     "level": "fault_enumeration",
     "technique": "rapid-generated base scenarios; a connection reset (preceded by a partial delivery cutting a record in a chosen offset class) or a session Close (optionally racing with other calls) is injected at EVERY operation position of each base scenario; teardown oracle at quiescence (synctest bubble)",
-    "level_text": "For each generated base scenario the fault is enumerated over every operation boundary and, per fault spec, over connection x offset class (record boundary, TLS header, frame header, payload, tag); after each injection the interpreter drains the network and checks prefix-only delivery, that every parked Read/Write/Accept/Close returned, that OpenStream is refused, that every connection end was closed, and (before the fault) that the active-stream counter equals the model count at every quiescent step; inactivity-timer phases are explored on the virtual clock. A bubble that ends up permanently stuck with a goroutine queued on a lock (which stops the virtual clock) is recognised by a real-time watchdog from two identical goroutine dumps and judged by the same post-fault rules evaluated on the harness' bookkeeping (violation only if a fault or session close had been injected and a blocked call has not returned or a connection was not closed); otherwise exit 2. At layer 3 (real client and server code over the test network) connection attempts fail in six ways during session set-up, including a reply that fails only after sibling connections have joined and a sibling whose reply is delayed past that failure; the established session must either work on six probe streams or be closed. A real-time sub-check closes the session (Close on either side, connection reset) while 1..1064 peer-opened streams wait un-accepted: the teardown must complete, a late Accept must return, nothing may panic; the peer-initiated case with an overflowing accept queue is the recorded known finding F-C12f (excluded by construction: the application resumes accepting; reproduced once per run).",
+    "level_text": "For each generated base scenario the fault is enumerated over every operation boundary and, per fault spec, over connection x offset class (record boundary, TLS header, frame header, payload, tag); after each injection the interpreter drains the network and checks prefix-only delivery, that every parked Read/Write/Accept/Close returned, that OpenStream is refused, that every connection end was closed, and (before the fault) that the active-stream counter equals the model count at every quiescent step; inactivity-timer phases are explored on the virtual clock. A bubble that ends up permanently stuck with a goroutine queued on a lock (which stops the virtual clock) is recognised by a real-time watchdog from two identical goroutine dumps and judged by the same post-fault rules evaluated on the harness' bookkeeping (violation only if a fault or session close had been injected and a blocked call has not returned or a connection was not closed); otherwise exit 2. At layer 3 (real client and server code over the test network) connection attempts fail in six ways during session set-up, including a reply that fails only after sibling connections have joined and a sibling whose reply is delayed past that failure; the established session must either work on six probe streams or be closed. A real-time sub-check closes streams from both ends at the same moment (50-500 per batch, a canary stream stays open) and requires both sessions to count exactly the canary once settled. Another closes the session (Close on either side, connection reset) while 1..1064 peer-opened streams wait un-accepted: the teardown must complete, a late Accept must return, nothing may panic; the peer-initiated case with an overflowing accept queue is the recorded known finding F-C12f (excluded by construction: the application resumes accepting; reproduced once per run).",
     "level_note": "Schedules inside a step are the Go runtime's; under back pressure only one writer per stream is generated (a parked writer holds the stream mutex, which synctest cannot treat as durably blocked).",
     "rule": "base scenario: rapid-drawn config (ordered/unordered, 1..8 conns or singleplex, optional bounded buffers) and <=30 ops; faults: 1..3 specs x every position 0..len(ops). Non-trivial = fault strictly inside a record, or frames had arrived out of order before it, or a goroutine was parked in Read/Write at the fault; distinct = distinct scenarios (each standing for (len(ops)+1) x specs executions, counted in evaluations).",
     "assumptions": ["a reset is seen by both ends; EOF is seen after in-flight bytes were delivered (TCP-like)", "the code under test does not complete a teardown through a timer while other goroutines queue on its locks (wedge verdicts)"],
@@ -136,7 +136,7 @@ CHECKS["C11"] = {
     "level": "exploration",
     "exhaustive_claim": True,
     "technique": "exhaustive single-bit flips over whole messages of 5 small sizes (all header/tag bits + sampled payload bits for large ones) x 3 AEAD methods x padded/unpadded; rapid-generated multi-byte corruptions, truncations, extensions, foreign keys/methods and garbage against deobfuscate and a live Session; native go fuzzing in the thorough tier",
-    "level_text": "Every variant of a genuine message must be rejected by the codec and, fed to a live session, must leave stream table, counters and accept queue untouched while a following valid frame is still delivered in order; garbage of 0..20480 bytes must never panic under any method. A real-time sub-check hands the genuine frames of 1-6 streams to the session from 1-8 goroutines at once (the connections' receiving goroutines), interleaved with random bytes, bit-flipped, truncated, extended and foreign-key frames: every reader must get exactly its stream's bytes, no foreign stream may appear, nothing may stall or panic. Modifications confined to wire bytes 12/13 are the recorded known finding and are excluded by construction (executed, counted, reported).",
+    "level_text": "Every variant of a genuine message must be rejected by the codec and, fed to a live session, must leave stream table, counters and accept queue untouched while a following valid frame is still delivered in order; garbage of 0..20480 bytes must never panic under any method. Garbage records of every length of interest (0..48, the record-size landmarks, the last 64 below the receive-buffer size) are also sent on a connection of the direct transport between two genuine frames: the second must be delivered and the session must stay open. A real-time sub-check hands the genuine frames of 1-6 streams to the session from 1-8 goroutines at once (the connections' receiving goroutines), interleaved with random bytes, bit-flipped, truncated, extended and foreign-key frames: every reader must get exactly its stream's bytes, no foreign stream may appear, nothing may stall or panic. Modifications confined to wire bytes 12/13 are the recorded known finding and are excluded by construction (executed, counted, reported).",
     "level_note": "Key and nonce space are sampled. The known finding F-C11 (bytes 12/13 unauthenticated) is listed in known_findings.json; any other accepted modification is a VIOLATION.",
     "rule": "Flips: for payload lengths 1,2,17,100,270 every bit of every byte position (padded seq 2 and unpadded seq 9), for 1500 and 16132 all 112 header bits, all 128 tag bits and 200 payload positions; x aes-256-gcm, chacha20-poly1305, aes-128-gcm. Random: rapid-drawn kind in {multi-byte xor, truncate 1..64, extend 1..64, other key, other method, garbage 0..20480 (all four methods), flip}. Every case non-trivial; distinct = distinct (method,size,position,bit) resp. scenarios.",
     "assumptions": ["x/crypto and crypto/aes AEAD implementations are correct"],
@@ -167,7 +167,7 @@ CHECKS["C20"] = {
 CHECKS["C18"] = {
     "level": "exploration",
     "technique": "model-based testing: rapid-generated admin-API operation sequences (POST with any subset of fields and extreme values, malformed/mismatching requests, GET, list, DELETE, close/reopen, owner connects, usage upload) against a real bolt-backed manager; in-memory reference map compared through GET and list after every step",
-    "level_text": "After every operation each of the 4 UIDs is read back through GET and through the listing and compared field by field with the reference map (overlapping operations: 2-4 POST/DELETE/usage-upload calls issued at once on one user must leave a record equal to the outcome of some sequential order of them, also after reopen; unset fields read as 0/null, rejected requests - UID mismatch, syntax errors, bad URL, empty body, and nine kinds of well-formed but ill-typed values - change nothing, deleted users are gone, state survives reopen); connect (userPanel.GetUser + GetSession) and usage upload (Manager.UploadStatus and userPanel.commitUpdate) are executed exactly as the server's goroutines call them, and a panic in Cloak code is a violation.",
+    "level_text": "After every operation each of the 4 UIDs is read back through GET and through the listing and compared field by field with the reference map (UIDs of 16, 3 and 20 bytes; listings requested while another connection keeps adding users until the database file has to be enlarged; overlapping operations: 2-4 POST/DELETE/usage-upload calls issued at once on one user must leave a record equal to the outcome of some sequential order of them, also after reopen; unset fields read as 0/null, rejected requests - UID mismatch, syntax errors, bad URL, empty body, and nine kinds of well-formed but ill-typed values - change nothing, deleted users are gone, state survives reopen); connect (userPanel.GetUser + GetSession) and usage upload (Manager.UploadStatus and userPanel.commitUpdate) are executed exactly as the server's goroutines call them, and a panic in Cloak code is a violation.",
     "level_note": "Crash points inside a bolt transaction are not injected (bolt's own durability is trusted); the API is driven through APIRouter.ServeHTTP rather than through a tunnelled HTTP connection (that path is exercised in C07's admin-gate check).",
     "rule": "rapid draws <=14 ops over 4 UIDs; values from {0,1,-1,2,100,2^31,-2^31,2^63-1,-2^63,now+-1,2^40} and [-1000,100000]; non-trivial = the sequence contains a partial update, a rejected request or a reopen; distinct = distinct scenarios.",
     "assumptions": ["bbolt commits are atomic and durable"],
